@@ -133,6 +133,7 @@ impl PayloadEncode for &UdpDatagram {
                 ProtocolNumber::Udp.into(),
                 &buf[0..self.required_size(header_and_extensions_size)],
             )
+            .add_slice(&buf[0..self.required_size(header_and_extensions_size)])
             .checksum();
             unchecked_bit_range_be_write::<u16>(buf, L::CHECKSUM_RNG, checksum);
         }
